@@ -29,12 +29,12 @@ SHARDS = {"quick": 10, "thorough": 16}
 
 def floors(tier):
     q = tier == "quick"
-    return {"rejected/class": 4000 if q else 300000, "rejected/no-side-effect": 4000 if q else 300000,
-            "accepted": 600 if q else 12000}
+    return {"rejected/class": 4000 if q else 1200000, "rejected/no-side-effect": 4000 if q else 1200000,
+            "accepted": 600 if q else 50000}
 
 
 def generate(ctx):
-    nbase = 6 if ctx.tier == "quick" else 120
+    nbase = 6 if ctx.tier == "quick" else 500
     idx = 0
     for m in MODEL_NAMES:
         for b in range(nbase):
